@@ -34,6 +34,8 @@ func init() {
 		Old: "lbls, bucketLabel := dropLabel(s.Copy(), \"le\")", New: "lbls, bucketLabel := dropLabel(s, \"le\")", Expect: "histogramOperator"})
 	mutant(Mutant{Rule: "R-LABELFRESH", Name: "matcher-copy-removed", File: "logicalplan/merge_selects.go",
 		Old: "\t\t\tfilters := make([]*labels.Matcher, len(e.LabelMatchers))\n\t\t\tcopy(filters, e.LabelMatchers)\n", New: "\t\t\tfilters := e.LabelMatchers\n", Expect: "replaceMatchers"})
+	mutant(Mutant{Rule: "R-LABELFRESH", Name: "builder-writes-into-input", File: "execution/unary/unary.go",
+		Old: "lbls := labels.NewBuilder(vectorSeries[i]).Del(labels.MetricName).Labels(nil)", New: "lbls := labels.NewBuilder(vectorSeries[i]).Del(labels.MetricName).Labels(vectorSeries[i])", Expect: "unaryNegation"})
 	mutant(Mutant{Rule: "R-SORTEDNAMES", Name: "sorted-clone-unsorted-stored", File: "execution/aggregate/khashaggregate.go",
 		Old: "\tslices.Sort(labels)\n\n\ta := &kAggregate{", New: "\tsorted := append([]string{}, labels...)\n\tslices.Sort(sorted)\n\n\ta := &kAggregate{", Expect: "hashMetric"})
 }
@@ -467,6 +469,24 @@ func ruleLabelFresh(p *core.Program) []core.Obligation {
 				} else {
 					obs = append(obs, core.Ob(rule, key, p.Pos(ins.Pos()), core.FuncName(fn), core.Violated, "an in-place edit is applied to a slice that is not a fresh copy: it may be owned by the storage, by the parsed expression or by another operator of the plan"))
 				}
+			}
+		})
+		// Builder.Labels(buf) writes the result into buf's backing array
+		core.EachInstr(fn, func(b *ssa.BasicBlock, i int, ins ssa.Instruction) {
+			call, ok := ins.(*ssa.Call)
+			if !ok || core.CalleeName(&call.Call) != "(*"+pkgLabels+".Builder).Labels" || len(call.Call.Args) < 2 {
+				return
+			}
+			buf := call.Call.Args[1]
+			if core.IsNilConst(buf) {
+				return
+			}
+			k++
+			key := fmt.Sprintf("%s -> Builder.Labels writes into its buffer argument #%d", core.FuncName(fn), k)
+			if fresh(p, buf, sum, 0, map[ssa.Value]bool{}) {
+				obs = append(obs, core.Ob(rule, key, p.Pos(ins.Pos()), core.FuncName(fn), core.Held, "the buffer is a fresh slice"))
+			} else {
+				obs = append(obs, core.Ob(rule, key, p.Pos(ins.Pos()), core.FuncName(fn), core.Violated, "Builder.Labels(buf) compacts the result into buf, and buf is not a fresh slice: it may be the label set the storage or another operator handed out"))
 			}
 		})
 		// direct in-place edits inside non-summarised code: a shift-delete or element store on a non-fresh local
